@@ -108,6 +108,11 @@ var c12Pairs = func() []*c12Scenario {
 	ed := mk("ENABLE", "ENABLE")
 	ed.Setup = []string{"DISABLE"}
 	out = append(out, ed)
+	// Store.EnableDB against the registry changing under it (regression for F21, and the re-registration variant:
+	// the path is unregistered AND registered again as a new instance while EnableDB is opening the old one)
+	out = append(out, mk("UNREG", "ENABLE"))
+	out = append(out, &c12Scenario{Name: "enable-vs-unregister+register", Prefix: base, Setup: []string{"DISABLE"},
+		Threads: [][]string{{"ENABLE"}, {"UNREG", "REG"}}})
 	// application transaction against sync and checkpoints (C02 half)
 	out = append(out, mk("TXC", "SYNC"), mk("TXC", "CKT"), mk("TXR", "SYNC"), mk("TXC", "FSNAP"))
 
